@@ -322,6 +322,66 @@ def gen_pair_case(rng, nops, big):
     return {"mode": "pair", "cfg": cfg, "caps": caps, "ops": ops, "kind": "pair"}
 
 
+def gen_eosreuse_case(rng):
+    """Directed family: a read half that has seen end-of-stream is KEPT while the reusable stream starts its next
+    transient stream (same id: one stream per capability), and is then read again.  End-of-stream is sticky: the old
+    half returns 0 bytes at once, the frames queued behind its CLOSE belong to the next handle.
+    Variants: reader on the accept / connect side, 2-4 incarnations, data of the next stream already queued or
+    arriving later, empty incarnations, traffic in the reverse direction."""
+    cfg = []
+    for _ in (0, 1):
+        rfs, rbs, rfc, wfs = gen_cfg(rng, False)
+        cfg.append([rfs, max(rbs, rfs * 4, 1000), max(rfc, 8), wfs])
+    rs, kr = rng.below(2), rng.below(2)
+    c = rng.choice([0, 1, 3, 9])
+    lim = 1 if rng.chance(5, 6) else 2
+    caps = [{"accept": [], "connect": []}, {"accept": [], "connect": []}]
+    caps[rs]["accept" if kr == 0 else "connect"].append([c, lim])
+    caps[1 - rs]["connect" if kr == 0 else "accept"].append([c, rng.choice([lim, lim + 1])])
+    if rng.chance(1, 3):
+        caps[rs]["connect" if kr == 0 else "accept"].append([c, 1])
+        caps[1 - rs]["accept" if kr == 0 else "connect"].append([c, 1])
+    ops, nxt, old = [], 1, None
+    for j in range(rng.range(2, 4)):
+        r, w = nxt, nxt + 1
+        nxt += 2
+        o = [["open", rs, kr, c, r], ["open", 1 - rs, 1 - kr, c, w]]
+        ops += o if rng.chance(1, 2) else o[::-1]
+        n = rng.choice([0, 0, 1, 5, 80, 300, 1000])
+        if old is not None and rng.chance(1, 2):
+            ops.append(["read", old, rng.choice([1, 10, 1000])])          # nothing of the next stream has arrived yet
+        if n:
+            ops.append(["write", w, n])                                    # (not applicable while w is not established)
+        ops.append(["flush", w])
+        if old is not None:
+            if rng.chance(3, 4):
+                ops.append(["read", old, rng.choice([1, max(n, 1), 5000])])  # OPEN (and DATA) of the next stream are queued behind the CLOSE
+            if rng.chance(1, 4):
+                ops.append(["read", old, 0])
+            ops.append(["dropr", old])
+        n2 = rng.choice([0, 1, 7, 150, 700])
+        if n2:
+            ops.append(["write", w, n2])
+            if rng.chance(1, 2):
+                ops.append(["flush", w])
+        if rng.chance(1, 3):
+            k = rng.choice([1, 20, 400])
+            ops += [["write", r, k], ["flush", r], ["read", w, k]]
+        if (n + n2) and rng.chance(1, 2):
+            ops.append(["read", r, rng.choice([1, n + n2])])
+        ops.append(["dropw", w])
+        ops.append(["read", r, n + n2 + rng.choice([1, 100, 5000])])       # short read: end of stream
+        if rng.chance(1, 2):
+            ops.append(["read", r, 7])
+        rel = [["dropw", r], ["dropr", w]]
+        ops += rel if rng.chance(1, 2) else rel[::-1]
+        old = r
+    ops.append(["read", old, 3])
+    if rng.chance(1, 2):
+        ops.append(["dropr", old])
+    return {"mode": "pair", "cfg": cfg, "caps": caps, "ops": ops, "kind": "pair-eosreuse"}
+
+
 def raw_hdr(fk, sk, idv):
     return fk | sk | idv
 
@@ -369,6 +429,8 @@ def gen_raw_case(rng, nops):
             ln = rng.choice([0, 1, 2, 10, 79, 100, 101, 500, 1000, 3000, rng.below(5000)])
             if rng.chance(1, 60):
                 ln = 65535
+            if cfgB[0] <= 2:
+                ln = min(ln, 600)   # read_frame_size 1 or 2: every payload byte (pair) is a frame of its own in the queues
             present = ln
             if rng.chance(1, 12):
                 present = rng.below(ln + 1)      # truncated payload (the rest may follow later, or never)
@@ -663,6 +725,40 @@ def pred_script(c, o):
             if open_round.get(acc, 1 << 60) > open_round.get(con, -1):
                 bad.append({"failed": f"accept-side slot {acc} (established in round {open_round.get(acc)}) is paired with connect-side slot {con} "
                                       f"(established in round {open_round.get(con)}): the connecting side cannot be established first"})
+        # attribution to the counterpart HANDLE: with a single reusable stream per direction the transient streams are
+        # sequential, the j-th handle established on the connecting side is the counterpart of the j-th on the accepting side
+        partner = {}
+        for X in (0, 1):
+            for cap, _ in c["caps"][X]["connect"]:
+                if stream_limit(c["caps"], X, 1, cap) != 1:
+                    continue
+                con = sorted((open_round[s], s) for s, i in slot_info.items() if s in open_round and (i["side"], i["kind"], i["cap"]) == (X, 1, cap))
+                acc = sorted((open_round[s], s) for s, i in slot_info.items() if s in open_round and (i["side"], i["kind"], i["cap"]) == (1 - X, 0, cap))
+                if len({r_ for r_, _ in con}) != len(con) or len({r_ for r_, _ in acc}) != len(acc):
+                    continue   # (cannot order them; the open-stream bound above reports it)
+                for (_, x), (_, y) in zip(con, acc):
+                    partner[x], partner[y] = y, x
+        for s, w in src_of.items():
+            if s in partner and partner[s] != w:
+                bad.append({"failed": f"slot {s} received data written on slot {w}, but its counterpart (same incarnation of the only reusable stream "
+                                      f"of capability {slot_info[s]['cap']}) is slot {partner[s]}: bytes of another transient stream of the same reusable stream"})
+        # end-of-stream is sticky (mirrors the last clause of C14_handle_isolation_and_order: once g_eos is set the handle has
+        # returned exactly the bytes of its counterpart, whose write half is closed, so nothing can be returned afterwards;
+        # in the model read_exact on a closed stream completes at once with no chunk)
+        eos_round = {}
+        for rnd, ob in enumerate(obs):
+            if rnd >= 1 and (rnd - 1) not in sk and rnd - 1 < len(ops) and ops[rnd - 1][0] == "read":
+                s = ops[rnd - 1][1]
+                if s in eos_round and not any(len(e) == 5 and e[0] == s and e[1] == 1 for e in ob[0]):
+                    bad.append({"failed": f"slot {s} reported end-of-stream in round {eos_round[s]}; the read of {ops[rnd - 1][2]} bytes issued before round {rnd} "
+                                          f"did not return (end-of-stream must be sticky: every later read returns 0 bytes at once)", "round": rnd})
+            for e in ob[0]:
+                if len(e) == 5 and e[1] == 1:
+                    s = e[0]
+                    if s in eos_round and e[3] > 0:
+                        bad.append({"failed": f"slot {s} reported end-of-stream in round {eos_round[s]} and a later read (round {rnd}) returned {e[3]} bytes", "round": rnd})
+                    if e[3] < e[2]:
+                        eos_round.setdefault(s, rnd)
         seen = {}
         for s, w in src_of.items():
             if w in seen:
@@ -678,6 +774,8 @@ def pred_script(c, o):
                 continue
             if w not in dropw_at:
                 bad.append({"failed": f"slot {s} saw end-of-stream although its counterpart {w} never closed its write half"})
+            elif s in eos_round and eos_round[s] < dropw_at[w] + 1:
+                bad.append({"failed": f"slot {s} saw end-of-stream in round {eos_round[s]}, before its counterpart {w} closed its write half (round {dropw_at[w] + 1})"})
             elif total_read.get(s, 0) != o["written"].get(str(w), 0):
                 bad.append({"failed": f"slot {s} saw end-of-stream after {total_read.get(s, 0)} bytes, counterpart {w} wrote {o['written'].get(str(w), 0)}"})
     # wire grammar per (side, stream kind, id) and frame sizes
@@ -780,6 +878,7 @@ def build_cases(rng, tier):
     cases += [gen_raw_case(rng, rng.range(5, nops)) for _ in range(nraw)]
     cases += [gen_flood_case(rng) for _ in range(nflood)]
     cases += [gen_ctlflood_case(rng, 2000 if q else 5000) for _ in range(10 if q else 80)]
+    cases += [gen_eosreuse_case(rng) for _ in range(16 if q else 400)]
     return cases
 
 
@@ -878,7 +977,7 @@ def run(rep):
                                             "drops of either half in any order, ~2% invalid ops; raw: arbitrary frames (any kind incl. the unassigned one, ids in and out of range, "
                                             "truncated payloads, single bytes, close) against one real Mux whose application opens/reads/drops; raw-flood: OPEN then DATA floods, "
                                             "application never reads; raw-ctlflood: after one OPEN, 2000 (quick) / 5000 OPEN, CLOSE, OPEN+CLOSE, CLOSE+OPEN+DATA(0), OPEN+DATA(1) frames at a stream "
-                                            "nobody accepts / nobody connects / whose reader never reads, read_frame_count 3..12 (predicate: queued frames taken off the transport <= read_frame_count + 1); header: all 2^16 values + 384 (kind,kind,id) triples; verify: boundary configs"},
+                                            "nobody accepts / nobody connects / whose reader never reads, read_frame_count 3..12 (predicate: queued frames taken off the transport <= read_frame_count + 1); pair-eosreuse: one reusable stream per capability, 2-4 transient streams in sequence on it, each read to end-of-stream, the old read half KEPT while the write halves are released and the peer starts the next transient stream on the same id (data already queued behind the CLOSE or arriving later, reader on the accept or on the connect side, empty streams, reverse traffic), then the old half is read again before it is dropped (predicates: end-of-stream is sticky - a later read returns 0 bytes at once; bytes are attributed to the counterpart handle of the same incarnation; end-of-stream not before the counterpart closed - they mirror the end-of-stream clause of C14_handle_isolation_and_order); header: all 2^16 values + 384 (kind,kind,id) triples; verify: boundary configs"},
         "samples": [{"case": cases[i], "impl": impl_obs(cases[i], outs[i]), "model_obs": samp.get(i)} for i in sample_ids if i < len(cases)],
         "correspondence_mismatches": len(mm), "predicate_failures": len(pred_fail),
         "partial": "Proved (closed, no axioms). Components: header layout for all 2^16 values; totality of the frame-kind match; both sides compute the same "
@@ -898,6 +997,10 @@ def run(rep):
                    "reader handle returned (+ read in progress) are a prefix of the bytes the application of the other side wrote through ONE handle, of opposite kind, the writer of that "
                    "incarnation of the paired stream; after a read reported end-of-stream they are exactly all bytes written through it and its write half is closed "
                    "(C14_handle_isolation_and_order, C14_handle_invariant; paired reusable streams carry the same capability: C14_paired_streams_same_capability; no stage was refuted). "
+                   "Implementation-side mirrors of the end-of-stream clause of C14_handle_isolation_and_order (after g_eos the handle has returned exactly the bytes of its counterpart, whose "
+                   "write half is closed; a read on a closed stream completes at once with no chunk): predicates 'every read issued after a handle reported end-of-stream returns 0 bytes in "
+                   "the same round', 'bytes are attributed to the counterpart handle of the same incarnation (j-th established handle on each side of a single reusable stream)', "
+                   "'end-of-stream not before the counterpart closed'; directed family pair-eosreuse. "
                    "NOT proved: the rephrasing of (iv) on the observation stream of a script (C14_full = C14_remaining_isolation_and_order in Properties/C14.v): events of complete_read "
                    "vs the ghost history over rounds, history of a handle after its read half was dropped, capability recorded per handle (paired streams have equal capability and opposite kinds: proved; handles do not record the capability they were opened with), configurations "
                    "outside side_ok; these rest on the differential correspondence and on the predicates (single-source contiguous reads, symmetric pairing, EOS only after close and complete). "
